@@ -222,6 +222,7 @@ def b_engine(job):
         texts.append({"sid": "s", "cfg": cfg, "kind": "main", "io": "file", "text": text, "out": res["out"][:2000],
                       "status": res["status"], "sig": res["sig"]})
         answers += [x for x in res["out"].split() if x in ("sat", "unsat", "unknown")]
+    tb.true(); tb.false()
     fam = [{"e": "Fam", "tt": tb.recs, "dom": []}]
     sample = {"builder": "engine", "logic": job["logic"], "seed": job["seed"], "script": texts[0]["text"][:1200] if texts else "",
               "answers": answers[:8], "stats": {k: v for k, v in stats.items() if not k.endswith("samples")}}
